@@ -2,6 +2,7 @@ package main
 
 import (
 	"fmt"
+	"github.com/ovn-org/libovsdb/ovsdb"
 
 	"verifharness/dyn"
 	"verifharness/gen"
@@ -44,7 +45,8 @@ func c15Txn(tg *txnGen) []TOp {
 		if g.Chance(0.7) {
 			u = tg.fresh()
 		}
-		ns = append(ns, named{fmt.Sprintf("row%d_%d", tg.counter, i), u, t})
+		// an <id>: letters of either case, digits, underscores
+		ns = append(ns, named{fmt.Sprintf([]string{"row%d_%d", "Row%d_%d", "brIntRow%d_%d", "_N%dx%d"}[g.Intn(4)], tg.counter, i), u, t})
 	}
 	nameOf := func(table string) (string, bool) {
 		var c []string
@@ -336,7 +338,8 @@ func driveC15(o opts) error {
 	return runTxnHistories(o, p)
 }
 
-func isName(s string) bool { return len(s) >= 3 && s[:3] == "row" }
+// a uuid atom that is not a uuid is a name
+func isName(s string) bool { return s != "" && !ovsdb.IsValidUUID(s) }
 
 func namedUses(v val.Val) int {
 	n := 0
